@@ -374,13 +374,26 @@ func runC14Concurrent(c *harness.Case) {
 	var mu sync.Mutex
 	var ops []porcupine.Operation
 	var wg sync.WaitGroup
-	rounds := 6 + r.Intn(6)
+	rounds := 25 + r.Intn(25)
+	// a barrier per round releases the candidates together (just scheduling: any of them may still be first)
+	barriers := make([]chan struct{}, rounds)
+	for i := range barriers {
+		barriers[i] = make(chan struct{})
+	}
+	var arrived = make([]int32, rounds)
 	okWrites := int64(0)
 	for ci, cd := range cs {
 		wg.Add(1)
 		go func(ci int, cd *candidate) {
 			defer wg.Done()
 			for i := 0; i < rounds; i++ {
+				if atomic.AddInt32(&arrived[i], 1) == int32(nCand) {
+					close(barriers[i])
+				}
+				select {
+				case <-barriers[i]:
+				case <-time.After(2 * time.Second):
+				}
 				t0 := atomic.AddInt64(&stamp, 1)
 				rr, gerr := cd.lock.Get()
 				t1 := atomic.AddInt64(&stamp, 1)
